@@ -284,6 +284,15 @@ def run(ctx) -> None:
                 no_explicit = ifacts.implied(n.id, ast.Name(id=pparam, ctx=ast.Load()), False) or ifacts.implied(n.id, ast.parse(f"{pparam} is None", mode="eval").body, True)
                 explicit_defs = [x for x in sel if x[4] and isinstance(x[1], ast.Name) and x[2] == tgt]
                 rep.check("C02.R5", no_explicit and bool(explicit_defs), init, n.ast, "the current context is used only when no explicit parent was given", "the current context is consulted although an explicit parent was given (or the explicit parent is never used)")
+        # `parent or <current>` / `if parent:` decide by the TRUTHINESS of a context object:
+        # that is only "was a parent given" as long as contexts are always truthy
+        by_truth = any(isinstance(v, ast.BoolOp) for _n, v, *_ in var_defs) or any(t.kind == "test" and isinstance(t.ast, ast.Name) and t.ast.id == pparam for t in icfg.live_nodes())
+        if by_truth:
+            falsy = [(ci, m) for ci in ctx.p.classes.values() if ctx.p.is_subclass(ci, an.Context.name) for m in ("__len__", "__bool__") if m in ci.methods]
+            for ci, m in falsy:
+                rep.violate("C02.R5", ci.methods[m], ci.methods[m].node, f"{ci.name}.{m} makes a context falsy in some states while the parent is chosen by truthiness (`parent or current`): an explicitly given but 'empty' parent is silently replaced by the current context")
+            if not falsy:
+                rep.hold("C02.R5", init, init.node, "contexts define neither __len__ nor __bool__: choosing the parent by truthiness means 'a parent was given'")
         # the chosen value ends up in the parent attribute
         pvars = {x[2] for x in var_defs}
         # component contexts are skipped
